@@ -504,6 +504,18 @@ def cleanup_scratch():
 
 # ------------------------------------------------------------------- evidence
 
+def opcode_names_missing(seen):
+    """Names of the instruction-table entries no process of this run executed (reach measure of the workload)."""
+    import re
+    try:
+        with open(os.path.join(REPO, "bytecode", "src", "instruction_constants.rs")) as f:
+            table = re.findall(r"^\s+([A-Z][A-Z0-9_]+)\s+(\d+)\s*$", f.read(), re.M)
+    except OSError:
+        return []
+    seen = {int(x) for x in seen}
+    return sorted(name.lower() for name, num in table if int(num) not in seen)
+
+
 def write_evidence(prop, tier, seed, level, tally, wall, rule, extra=None, violations=0, exhaustive=None,
                    assumptions=None, known=None):
     cov = {
@@ -521,6 +533,7 @@ def write_evidence(prop, tier, seed, level, tally, wall, rule, extra=None, viola
         "distinct_interleavings_measure": "distinct normalised event-log signatures (call, target class, bucketed outcome, faulted?) per process",
         "distinct_hash_seeds": len(tally.hash_seeds),
         "opcodes_executed": len(tally.ops),
+        "opcodes_never_executed": opcode_names_missing(tally.ops),
         "probes": dict(sorted(tally.probes.items())),
         "batches": dict(sorted(tally.batches.items())),
         "robustness_observations": dict(sorted(tally.observations.items())),
